@@ -581,7 +581,14 @@ func (r *RowCache) uuidsByConditionsAsIndexes(conditions []ovsdb.Condition, nati
 		if err != nil {
 			return nil, err
 		}
+		columns := map[string]struct{}{}
 		for _, conditions := range conditions {
+			if _, ok := columns[conditions.column]; ok {
+				// one model cannot hold the values of two conditions on the
+				// same column: this set cannot be evaluated as an index
+				return nil, nil
+			}
+			columns[conditions.column] = struct{}{}
 			err := info.SetField(conditions.column, conditions.nativeValue)
 			if err != nil {
 				return nil, err
